@@ -17,13 +17,15 @@ LEVEL = 'exploration'
 RULE = ('inputs: corpus, Annex A derivations in 5 layouts (one alternative forced per case), and the systematic '
         'products operator x left-operand class x right-operand class, member/call/new on every primary kind, '
         'keyword x following token class, every statement kind as body of if/else/loops/labels/with (quick: every '
-        '6th binary product); configurations: indent strings "", " ", two spaces, four spaces, TAB, " TAB". '
+        '6th binary product); configurations: indent strings "", " ", two spaces, four spaces, TAB, " TAB"; '
+        'twelve programs whose indented lines start with every kind of token x each of the 21 ES5 white-space characters as the '
+        'indentation (alone, after a blank, doubled). '
         'every second case is first printed by a printer object that has an abandoned and a completed walk behind it (the re-print by a fresh one). A case = (text, indent); non-trivial = at least 8 tokens and at least 2 node kinds; distinct by (text, indent).')
 ASSUMPTIONS = ['inputs the real parser rejects are skipped (C03/C04 report those); "any conforming ES5 parser" is '
                'checked with refjs only for inputs refjs itself reads as the same tree (else input_not_es5)',
                'nesting depth is bounded (RecursionError in the recursive printers is a resource limit)']
 BUDGET_S = {'quick': 120, 'thorough': 900}
-REQUIRED_HITS = ['pretty_print', 'reparse', 'fixpoint_compared', 'reference_reread', 'used_printer', 'deep_chain']
+REQUIRED_HITS = ['pretty_print', 'reparse', 'fixpoint_compared', 'reference_reread', 'used_printer', 'deep_chain', 'white_space_indent']
 FLOOR = {'quick': 3000, 'thorough': 40000}
 
 INDENTS = ['  ', '\t', '', ' ', '    ', ' \t']
@@ -46,6 +48,24 @@ def judge(ci, o1, c2, err2, o2, ref_c, ref_err, es5):
             return ('C01:output_reads_differently',
                     'a conforming ES5 parser reads the pretty output as a different tree: %s' % first_diff(ci, ref_c))
     return None
+
+
+WS_CHARS = ['\t', '\x0b', '\x0c', ' ', '\xa0', '\ufeff', '\u1680', '\u2000', '\u2001', '\u2002', '\u2003', '\u2004', '\u2005',
+            '\u2006', '\u2007', '\u2008', '\u2009', '\u200a', '\u202f', '\u205f', '\u3000']
+INDENT_PROBES = [
+    'function f() { /re/.test(a); /=x/g.exec(b) }',
+    'switch (a) { case 1: /x/g; break; default: /y/.test(z) }',
+    'if (a) { ++b; --c; -d; +e; !f; ~g }',
+    'x = { a: 1, get b() { return /x/ }, "c": [1, 2], 3: null };',
+    'function f() { "use strict"; 1.5; .5e3; 0x1F; \'s\' }',
+    'while (a) { (b); [c]; {d} ; }',
+    'do { a in b; typeof c; new D; delete e.f; void 0; this; null; true } while (false)',
+    'try { throw /re/ } catch (e) { debugger; } finally { var v = 1, w; }',
+    'lbl: for (;;) { continue lbl; break lbl; }',
+    'for (var i in o) { with (o) { i++ } if (i) return; else { function g() {} } }',
+    'x = function () { return function () { return [ { k: /r/ } ] } };',
+    'a = { b: { c: { d: /e/ } } }; { { { /f/ } } }',
+]
 
 
 def selfcheck(ctx):
@@ -174,6 +194,16 @@ def run(ctx):
         if ctx.out_of_time():
             break
     progs.report()
+    # "every indentation string": each ES5 white-space character (7.2: TAB VT FF SP NBSP BOM and category Zs) as the
+    # indentation, alone and next to a blank, in front of every kind of token that can start an indented line
+    idx = 0
+    for w in WS_CHARS:
+        for ind in (w, ' ' + w, w + w):
+            for text in INDENT_PROBES:
+                idx += 1
+                if idx % ctx.nshards == ctx.shard and (ctx.tier != 'quick' or ind != w + w or (idx // ctx.nshards) % 3 == 0):
+                    ctx.hit('white_space_indent')
+                    check(ctx, text, [ind], 'white_space_indent', key=0)
     # deep rather than wide (skipped where this interpreter's own stack is the limit: RecursionError is not a verdict)
     for k, (name, n, text) in enumerate(work.deep_chain_texts()):
         if k % ctx.nshards == ctx.shard:
